@@ -1,2 +1,2 @@
-import HappyModel.C05.Driver
-def main : IO Unit := HappyModel.Proto.serve HappyModel.C05.Driver.handle
+import HappyModel.C05.DriverS
+def main : IO Unit := HappyModel.Proto.serve HappyModel.C05.DriverS.handle
